@@ -88,8 +88,8 @@ fn c15_leaves_dec() {
 #[kani::proof]
 #[kani::stub(postcard_schema::key::hash::fnv1a64::hash_update, crate::shapes::hash_update_logger)]
 #[kani::unwind(40)]
-//@ tier=quick class=core cap=900 bounds="all 20 leaf kinds x every path of 0..=3 UTF-8 bytes: both hashers feed hash_update exactly path ++ documented tag" stubs="hash_update=byte logger (kernel verified separately)" hooks=H2
-fn c16_leaves_stream() {
+//@ tier=quick class=core cap=2400 bounds="all 20 leaf kinds x every path of 0..=3 UTF-8 bytes: the compile-time hasher feeds hash_update exactly path ++ documented tag" stubs="hash_update=byte logger (kernel verified separately)" hooks=H2
+fn c16_leaves_stream_const() {
     let path = Path::any();
     let one = |i: usize| {
         let mut want = Expect::new();
@@ -98,6 +98,21 @@ fn c16_leaves_stream() {
         stream_reset();
         let _ = postcard_schema::key::hash::fnv1a64::verif_hash_static(path.as_str(), &BORROWED[i]);
         stream_equals(&want);
+    };
+    each_leaf!(one);
+    kani::cover!(path.len == 3, "3-byte path reachable");
+}
+
+#[kani::proof]
+#[kani::stub(postcard_schema::key::hash::fnv1a64::hash_update, crate::shapes::hash_update_logger)]
+#[kani::unwind(40)]
+//@ tier=quick class=core cap=2400 bounds="all 20 leaf kinds x every path of 0..=3 UTF-8 bytes: the run-time hasher feeds hash_update exactly path ++ documented tag" stubs="hash_update=byte logger (kernel verified separately)"
+fn c16_leaves_stream_owned() {
+    let path = Path::any();
+    let one = |i: usize| {
+        let mut want = Expect::new();
+        want.bytes(path.bytes());
+        want.tag(TAGS[i]);
         stream_reset();
         let _ = postcard_schema::key::Key::for_owned_schema_path(path.as_str(), &owned(i));
         stream_equals(&want);
